@@ -214,46 +214,111 @@ open TF.GenBridge.Merkle
 open TF.Gen.Loops (merkle_from_digests merkle_from_digests_ok)
 variable (d0 : D)
 
-/-- the full bridge (every cut-off, every input): the regenerated function with its `_ok` flag is the hand model with
-    the same fuel.  NOT proved in full — see `gen_from_digests_partial` -/
-def gen_from_digests_statement : Prop :=
-  ∀ (D : Type) (H : D → D → D) (d0 filler : D) (cutoff : Nat) (ds : List D),
-    (if merkle_from_digests_ok H d0 filler cutoff ds then
-        (merkle_from_digests H d0 filler cutoff ds).map fun r => match r with
-          | .ok nodes => Res.ok (Tree.mk nodes)
-          | .error e => if e == "TooFewLeafs" then Res.err .tooFewLeafs else Res.err .incorrectNumberOfLeafs
-      else some .panic)
-      = fromDigestsFuel H filler cutoff (ds.length + 1) ds
+/-- **the regenerated `from_digests` is the hand model** — every hash function, every cut-off, every digest list that fits
+    a 64-bit address space (`len < 2^63`; a `Vec<Digest>` holds at most `isize::MAX / 40` elements), digests opaque: no
+    check of the `_ok` twin fails (no overflow, no index out of bounds, no `clone_from_slice` length mismatch) and the
+    regenerated function, read through `toRes` (`Ok(nodes)` ↦ tree, the two error kinds), *is* `fromDigestsFuel` with the
+    same fuel `len + 1` (`none` = out of fuel on both sides), hence `some (fromDigests …)`.  Contains: the lock-step of the
+    `while` level loop with `parLoop` including `count_acc`, the bit trick of `is_power_of_two` = `2^log2 n == n`, the
+    sequential loop = `seqLoop`, the initial vector and `digests.len() - count_acc` -/
+theorem gen_from_digests_eq_model (filler : D) (cutoff : Nat) (ds : List D) (hlen : ds.length < 2^63) :
+    merkle_from_digests_ok H d0 filler cutoff ds = true ∧
+    (merkle_from_digests H d0 filler cutoff ds).map toRes = fromDigestsFuel H filler cutoff (ds.length + 1) ds ∧
+    (merkle_from_digests H d0 filler cutoff ds).map toRes = some (fromDigests H filler cutoff ds) := by
+  have key : merkle_from_digests_ok H d0 filler cutoff ds = true ∧
+      (merkle_from_digests H d0 filler cutoff ds).map toRes = fromDigestsFuel H filler cutoff (ds.length + 1) ds := by
+    by_cases he : ds = []
+    · subst he; exact ⟨rfl, rfl⟩
+    · have he' : ds.isEmpty = false := by cases ds <;> simp_all
+      cases hp : TF.isPow2 ds.length
+      · obtain ⟨h1, h2⟩ := gen_not_pow2 H d0 filler cutoff he hp
+        refine ⟨h2, ?_⟩
+        rw [h1, fromDigestsFuel]
+        have hp' : TF.Merkle.isPow2 ds.length = false := by rw [← isPow2_trick_eq_model]; exact hp
+        simp only [he', hp', Bool.false_eq_true, if_false, Bool.not_false, if_true]
+        rfl
+      · exact gen_pow2 H d0 filler cutoff he hp hlen
+  refine ⟨key.1, key.2, ?_⟩
+  obtain ⟨r, hr⟩ := from_digests_terminates H filler cutoff ds
+  rw [key.2, fromDigests, hr]
+example : (merkle_from_digests Hx 7 0 1 [1, 2, 3, 4]).map toRes = some (fromDigests Hx 0 1 [1, 2, 3, 4]) ∧
+    fromDigests Hx 0 1 [1, 2, 3, 4] = .ok ⟨[0, 193, 14, 30, 1, 2, 3, 4]⟩ ∧
+    (merkle_from_digests Hx 7 0 1 [1, 2, 3]).map toRes = some (.err .incorrectNumberOfLeafs) ∧
+    (merkle_from_digests Hx 7 0 1 []).map toRes = some (.err .tooFewLeafs) := by decide +kernel
 
-/-- proved part of `gen_from_digests_statement`, for every `H`: (i) the two rejection arms for every input and cut-off (the second one in terms of the documented bit trick
-    `TF.isPow2 n = (n != 0 && n &&& (n - 1) == 0)` of `usize::is_power_of_two`, which the model states as `2^log2 n = n`);
-    (ii) the regenerated **sequential loop** `for i in (ROOT_INDEX..1+k).rev() { nodes[i] = hash_pair(nodes[2i], nodes[2i+1]) }`
-    never panics and is the hand model's `seqLoop` over `(ROOT_INDEX..1+k).rev()` for every node vector that contains all
-    the children (`2·(1+k) ≤ len < 2^64`).  Missing: the lock-step of the regenerated `while` level loop with
-    `parLoop`/`parLevel` and the assembly of the whole function (initial vector, `digests.len() - count_acc`); both are
-    tied by the driver: `build_env` ops evaluate the regenerated function with every cut-off next to the hand model
-    (GEN-MISMATCH) -/
-theorem gen_from_digests_partial (filler : D) (cutoff : Nat) (ds : List D) :
-    (ds = [] → merkle_from_digests H d0 filler cutoff ds = some (.error "TooFewLeafs") ∧
-      merkle_from_digests_ok H d0 filler cutoff ds = true) ∧
-    (ds ≠ [] → TF.isPow2 ds.length = false →
-      merkle_from_digests H d0 filler cutoff ds = some (.error "IncorrectNumberOfLeafs") ∧
-      merkle_from_digests_ok H d0 filler cutoff ds = true) ∧
-    (∀ (k : Nat) (nodes : List D), 2 * (1 + k) ≤ nodes.length → nodes.length < 2 ^ 64 →
-      TF.Gen.Loops.merkle_from_digests_for2_ok H d0 filler cutoff 1 k nodes = true ∧
-      seqLoop H nodes (List.range' ROOT_INDEX k).reverse
-        = .ok (TF.Gen.Loops.merkle_from_digests_for2 H d0 filler cutoff 1 k nodes)) := by
-  refine ⟨fun he => by subst he; exact gen_empty H d0 filler cutoff, fun hne hp => ?_, fun k nodes h1 h2 => ?_⟩
-  · exact gen_not_pow2 H d0 filler cutoff hne hp
-  · exact seq_eq H d0 filler cutoff k nodes h1 h2
-/-- non-vacuity: four leafs, sequential arm (cut-off 3 > 4/2) and a parallel level (cut-off 1), evaluated -/
-example : let nodesOf := fun (r : Option (Except String (List Nat))) => r.map fun x => match x with
-      | .ok n => n
-      | .error _ => []
-    nodesOf (merkle_from_digests Hx 0 0 3 [1, 2, 3, 4]) = some [0, 193, 14, 30, 1, 2, 3, 4] ∧
-    nodesOf (merkle_from_digests Hx 0 0 1 [1, 2, 3, 4]) = some [0, 193, 14, 30, 1, 2, 3, 4] ∧
-    merkle_from_digests_ok Hx 0 0 1 [1, 2, 3, 4] = true ∧
-    nodesOf (merkle_from_digests Hx 0 0 1 [1, 2, 3]) = some [] ∧ TF.isPow2 3 = false := by decide +kernel
+/-- the excluded inputs: for a power-of-two number of digests from `2^63` on, `vec![default; 2 * n]` overflows `usize`
+    (the `_ok` twin is false); such a vector cannot exist in a 64-bit address space -/
+theorem gen_from_digests_beyond_address_space (filler : D) (cutoff : Nat) (ds : List D) (hlen : 2^63 ≤ ds.length)
+    (hp : TF.isPow2 ds.length = true) : merkle_from_digests_ok H d0 filler cutoff ds = false := by
+  have he : ds.isEmpty = false := by
+    cases ds with
+    | nil => simp at hlen
+    | cons _ _ => rfl
+  have c1 : decide (2 * ds.length < 18446744073709551616) = false := decide_eq_false (by omega)
+  unfold merkle_from_digests_ok
+  simp only [he, Bool.false_eq_true, if_false, pow2_trick, hp, Bool.not_true, c1, Bool.false_and]
+example (ds : List Nat) (h : ds.length = 2^63) : 2^63 ≤ ds.length ∧ TF.isPow2 ds.length = true :=
+  ⟨Nat.le_of_eq h.symm, (isPow2_trick_iff _).2 ⟨63, h⟩⟩
+
+/-- **TRANSFER**: `from_digests_terminates`, `from_digests_spec`, `from_digests_cutoff_independent` and
+    `from_digests_schedule_independent` hold of the function *as regenerated from the current source*: (i) it finishes
+    within its fuel for every cut-off (0, 1, …, larger than the tree) with no failing check; (ii) for `2^h` leafs it returns
+    the Merkle tree — every inner node the hash of its children, leafs copied — which is the explicit tree
+    `Spec.treeNodes`; (iii) its result does not depend on the cut-off; (iv) under every thread schedule of every parallel
+    level (any permutation of the tasks) and any cut-off, the task-level model of the rayon run returns what the
+    regenerated sequential reading returns -/
+theorem gen_from_digests_transfer (filler : D) (ds : List D) (hlen : ds.length < 2^63) :
+    (∀ cutoff, merkle_from_digests_ok H d0 filler cutoff ds = true ∧
+      ∃ r, merkle_from_digests H d0 filler cutoff ds = some r) ∧
+    (∀ cutoff h, ds.length = 2^h → ∃ nodes, merkle_from_digests H d0 filler cutoff ds = some (.ok nodes) ∧
+      Spec.IsMerkleTree H filler ds nodes ∧ nodes = Spec.treeNodes H filler h ds) ∧
+    (∀ c c', merkle_from_digests H d0 filler c ds = merkle_from_digests H d0 filler c' ds) ∧
+    (∀ (scheds : Nat → List Nat), (∀ cnt, (scheds cnt).Perm (List.range cnt)) → ∀ cutoff cutoff',
+      some (fromDigestsSched H scheds filler cutoff ds) = (merkle_from_digests H d0 filler cutoff' ds).map toRes) := by
+  have hspec : ∀ cutoff h, ds.length = 2^h → ∃ nodes, merkle_from_digests H d0 filler cutoff ds = some (.ok nodes) ∧
+      Spec.IsMerkleTree H filler ds nodes ∧ nodes = Spec.treeNodes H filler h ds := by
+    intro cutoff h hn
+    obtain ⟨t, h1, h2, h3⟩ := from_digests_spec H filler cutoff hn
+    have hg := (gen_from_digests_eq_model H d0 filler cutoff ds hlen).2.2
+    rw [h1] at hg
+    cases hr : merkle_from_digests H d0 filler cutoff ds with
+    | none => rw [hr] at hg; cases hg
+    | some r =>
+      rw [hr] at hg
+      cases r with
+      | error e =>
+        exfalso
+        simp only [Option.map_some, toRes, Option.some.injEq] at hg
+        split at hg <;> cases hg
+      | ok nodes =>
+        simp only [Option.map_some, toRes, Option.some.injEq, Res.ok.injEq] at hg
+        subst hg
+        exact ⟨nodes, rfl, h2, h3⟩
+  refine ⟨fun cutoff => ?_, hspec, fun c c' => ?_, fun scheds hs cutoff cutoff' => ?_⟩
+  · obtain ⟨h1, _, h3⟩ := gen_from_digests_eq_model H d0 filler cutoff ds hlen
+    refine ⟨h1, ?_⟩
+    cases hr : merkle_from_digests H d0 filler cutoff ds with
+    | none => rw [hr] at h3; cases h3
+    | some r => exact ⟨r, rfl⟩
+  · by_cases he : ds = []
+    · subst he; rfl
+    · cases hp : TF.isPow2 ds.length
+      · rw [(gen_not_pow2 H d0 filler c he hp).1, (gen_not_pow2 H d0 filler c' he hp).1]
+      · obtain ⟨h, hn⟩ := (isPow2_trick_iff _).1 hp
+        obtain ⟨n1, e1, _, t1⟩ := hspec c h hn
+        obtain ⟨n2, e2, _, t2⟩ := hspec c' h hn
+        rw [e1, e2, t1, t2]
+  · rw [(gen_from_digests_eq_model H d0 filler cutoff' ds hlen).2.2,
+      from_digests_schedule_independent H scheds hs filler cutoff cutoff' ds]
+/-- non-vacuity: eight leafs, two parallel levels then the sequential loop (cut-off 2), all sequential (cut-off 2^30),
+    all parallel (cut-off 0), and a round-robin schedule on three threads -/
+example : (merkle_from_digests Hx 7 0 2 [1, 2, 3, 4, 5, 6, 7, 8]).map toRes
+      = some (.ok ⟨[0, 2825, 193, 449, 14, 30, 46, 62, 1, 2, 3, 4, 5, 6, 7, 8]⟩) ∧
+    (merkle_from_digests Hx 7 0 (2^30) [1, 2, 3, 4, 5, 6, 7, 8]).map toRes
+      = (merkle_from_digests Hx 7 0 0 [1, 2, 3, 4, 5, 6, 7, 8]).map toRes ∧
+    merkle_from_digests_ok Hx 7 0 0 [1, 2, 3, 4, 5, 6, 7, 8] = true ∧
+    some (fromDigestsSched Hx (roundRobin 3) 0 0 [1, 2, 3, 4, 5, 6, 7, 8])
+      = (merkle_from_digests Hx 7 0 2 [1, 2, 3, 4, 5, 6, 7, 8]).map toRes := by decide +kernel
 
 end GenBridge
 
